@@ -6,12 +6,19 @@
 //!     const Sn: &str    = <literal n>;                         // rustc's own reading of the same literal
 //! which is compiled with `cargo build --offline --message-format=json`.  Diagnostics are attributed to the const
 //! whose source lines they point at; consts that do not compile are left out and the crate is built again, then run:
-//! it prints every Pn, the bytes of every Sn and `pelite::pattern::parse(Sn)`.
+//! it prints every Pn, the bytes of every Sn, `pelite::pattern::parse(Sn)` and the real `format!("{:?}", ..)` of that
+//! parse result (`dbg=`: the text the derived Debug prints, compared byte for byte with Model/Codegen.v and read back by
+//! the extracted Spec/RustTokens.v).
+//! A second stream (`dbg atoms=..`) takes hand-built atom vectors covering every variant with boundary field values:
+//! the harness prints their real Debug text, and the expansion text built from it with the macro's format string is
+//! compiled in the same generated crate as `const Pn: &[Atom] = { use ::pelite::pattern::Atom::*; &[..] };` - what
+//! rustc sees after expanding `pattern!` - and compared with the vector.
 //! Protocol: the usual `gen SEED START COUNT` / `replay FILE [SKIP]` with CASE/OBS lines.
 //!
 //! One build per check: shards of the same check (same parent process) share the table of a block through
 //! `.cache/c17crate/run-<ppid>-<start>/`; the first shard to need a block builds it under a file lock.
 use pvh::*;
+use pelite::pattern::Atom;
 use std::collections::HashMap;
 use std::fs;
 use std::io::Write;
@@ -204,11 +211,63 @@ fn gen(rng: &mut Rng, i: u64) -> String {
 	format!("lit src={}", hex(src.as_bytes()))
 }
 
+/// the variants of `pelite::pattern::Atom` (name, has a u8 field) - harness glue; the Spec's table is compared with
+/// the enum's source text in case 0
+const VARIANTS: &[(&str, bool)] = &[("Byte", true), ("Save", true), ("Push", true), ("Pop", false), ("Fuzzy", true), ("Skip", true), ("Back", true),
+	("Rangext", true), ("Many", true), ("Jump1", false), ("Jump4", false), ("Ptr", false), ("Pir", true), ("VTypeName", false), ("Check", true),
+	("Aligned", true), ("ReadI8", true), ("ReadU8", true), ("ReadI16", true), ("ReadU16", true), ("ReadI32", true), ("ReadU32", true), ("Zero", true),
+	("Case", true), ("Break", true), ("Nop", false)];
+fn mk_atom(name: &str, v: u8) -> Atom {
+	use pelite::pattern::Atom::*;
+	match name {
+		"Byte" => Byte(v), "Save" => Save(v), "Push" => Push(v), "Pop" => Pop, "Fuzzy" => Fuzzy(v), "Skip" => Skip(v), "Back" => Back(v),
+		"Rangext" => Rangext(v), "Many" => Many(v), "Jump1" => Jump1, "Jump4" => Jump4, "Ptr" => Ptr, "Pir" => Pir(v), "VTypeName" => VTypeName,
+		"Check" => Check(v), "Aligned" => Aligned(v), "ReadI8" => ReadI8(v), "ReadU8" => ReadU8(v), "ReadI16" => ReadI16(v), "ReadU16" => ReadU16(v),
+		"ReadI32" => ReadI32(v), "ReadU32" => ReadU32(v), "Zero" => Zero(v), "Case" => Case(v), "Break" => Break(v), "Nop" => Nop,
+		_ => panic!("atom name {}", name),
+	}
+}
+fn atoms_of_text(t: &str) -> Vec<Atom> {
+	split(t, ',').iter().map(|a| {
+		let mut it = a.splitn(2, ':');
+		let name = it.next().unwrap();
+		let v: u8 = it.next().map(|x| x.parse().expect("u8 field")).unwrap_or(0);
+		mk_atom(name, v)
+	}).collect()
+}
+/// field values at the limits of the type and of the decimal notation (1, 2, 3 digits; 0; the maximum)
+const FIELD_VALUES: &[u8] = &[0, 1, 9, 10, 11, 99, 100, 101, 127, 128, 199, 200, 254, 255];
+/// hand-built atom vectors: every variant, boundary field values - vectors the parser never returns included
+/// (the empty one, Nop/Fuzzy/Back/Check/Pir/VTypeName, fields the parser does not produce)
+fn gen_dbg(rng: &mut Rng, i: u64) -> String {
+	let mut out: Vec<String> = Vec::new();
+	let item = |rng: &mut Rng, k: usize| -> String {
+		let (name, has) = VARIANTS[k];
+		if has { format!("{}:{}", name, if rng.chance(3, 4) { *rng.pick(FIELD_VALUES) } else { rng.byte() }) } else { name.to_string() }
+	};
+	match (i / 16) % 4 {
+		// every variant once, in source order / in a random rotation
+		0 => { let r = rng.below(VARIANTS.len() as u64) as usize; for k in 0..VARIANTS.len() { out.push(item(rng, (k + r) % VARIANTS.len())); } },
+		// one variant with all boundary values (tuple variants) or repeated (unit variants: adjacent equal elements)
+		1 => {
+			let k = rng.below(VARIANTS.len() as u64) as usize;
+			let (name, has) = VARIANTS[k];
+			if has { for v in FIELD_VALUES { out.push(format!("{}:{}", name, v)); } } else { for _ in 0..rng.range(1, 4) { out.push(name.to_string()); } }
+		},
+		// short vectors, the empty one and singletons included
+		2 => { for _ in 0..rng.below(4) { let k = rng.below(VARIANTS.len() as u64) as usize; out.push(item(rng, k)); } },
+		// random vectors
+		_ => { for _ in 0..rng.range(1, 60) { let k = rng.below(VARIANTS.len() as u64) as usize; out.push(item(rng, k)); } },
+	}
+	format!("dbg atoms={}", if out.is_empty() { "-".to_string() } else { out.join(",") })
+}
+
 /// Case twins: every eighth case repeats the pattern of the case before it with the letter case flipped INSIDE the
 /// quoted text sections only (hex digits, operators and everything else unchanged).  Both literals are compiled in
 /// the same generated crate, so an expansion that depends on anything but the literal itself (state kept between
 /// two invocations of the macro, a cache keyed on a normalised string) shows up as a difference from parse().
 fn gen_at(seed: u64, i: u64) -> String {
+	if i % 16 == 3 { return gen_dbg(&mut Rng::for_case(seed, i), i); }
 	if i % 8 == 5 && i >= 2 {
 		let value = gen_value(&mut Rng::for_case(seed, i - 1));
 		let mut inq = false;
@@ -253,17 +312,44 @@ fn run_shared() -> String {
 	let pat = rd("src/proc-macros/pattern.rs");
 	let cfgs: Vec<String> = pat.lines().filter(|l| l.contains("#[cfg")).map(|l| strip_ws(l)).collect();
 	let cfg_ok = cfgs.iter().all(|c| c == "#[cfg(feature=\"std\")]" || c == "#[cfg(test)]");
-	format!("path_attr={} mod_decl={} single_copy={} dep_path={} reexport={} cfg_neutral={}", path_attr as u8, mod_decl as u8, single as u8, dep as u8, reexport as u8, cfg_ok as u8)
+	let base = format!("path_attr={} mod_decl={} single_copy={} dep_path={} reexport={} cfg_neutral={}", path_attr as u8, mod_decl as u8, single as u8, dep as u8, reexport as u8, cfg_ok as u8);
+	// ---- the code generation step, as source text ----
+	// the one format!(..) of the macro crate: its format string (the contents of the literal, byte for byte), and that it
+	// is applied to the parser's result and is the value of the macro: format!(<lit>, pattern).parse().unwrap() }
+	let mac_src = rd("src/proc-macros/lib.rs");
+	let fmts: Vec<&str> = mac_src.match_indices("format!(\"").map(|(k, m)| { let r = &mac_src[k + m.len()..]; &r[..r.find('"').unwrap_or(0)] }).collect();
+	let fmt = if fmts.len() == 1 { hex(fmts[0].as_bytes()) } else { format!("!{}-format-calls", fmts.len()) };
+	let call = fmts.len() == 1 && mac.contains(&format!("letpattern=matchpattern::parse(&string){{Ok(pattern)=>pattern,"))
+		&& mac.contains(&format!("format!(\"{}\",pattern).parse().unwrap()}}fnparse_str_literal", strip_ws(fmts[0])));
+	// the enum: derived Debug (no hand-written impl), and its variants with their field types, in source order
+	let enum_at = pat.find("pub enum Atom {");
+	let (derive, variants) = match enum_at {
+		None => (false, "!no-enum".to_string()),
+		Some(at) => {
+			let attr = pat[..at].trim_end().lines().last().unwrap_or("");
+			let derive = attr.trim_start().starts_with("#[derive(") && attr.contains("Debug") && !strip_ws(&pat).contains("Debugfor");
+			let body = &pat[at + "pub enum Atom {".len()..];
+			let body = &body[..body.find("\n}").unwrap_or(0)];
+			let vs: Vec<String> = body.lines().map(|l| l.trim()).filter(|l| !l.is_empty() && !l.starts_with("//")).map(|l| {
+				let l = l.trim_end_matches(',');
+				match l.find('(') { Some(k) => format!("{}:{}", &l[..k], l[k + 1..].trim_end_matches(')')), None => l.to_string() }
+			}).collect();
+			(derive, vs.join(","))
+		},
+	};
+	format!("{} fmt={} codegen_call={} debug_derived={} variants={}", base, fmt, call as u8, derive as u8, variants)
 }
 
 // ---------------------------------------------------------------- the generated crate
 #[derive(Clone, Debug, Default)]
-struct LitObs { mac: String, st: String, parse: String, solo: String }
+struct LitObs { mac: String, st: String, parse: String, dbg: String, solo: String }
 impl LitObs {
-	fn text(&self) -> String { format!("macro={} str={} parse={} solo={}", self.mac, self.st, self.parse, self.solo) }
+	fn text(&self) -> String { format!("macro={} str={} parse={} dbg={} solo={}", self.mac, self.st, self.parse, self.dbg, self.solo) }
 }
-#[derive(Clone)]
-struct Lit { src: String, tok_only: bool }
+/// `expr`: the text is not a literal handed to the macro but an expansion text put where the macro call would be
+/// (`dbg` cases); `dbg` = the real Debug text it was built from
+#[derive(Clone, Default)]
+struct Lit { src: String, tok_only: bool, expr: bool, dbg: String }
 
 fn cache_dir() -> PathBuf { harness_dir().parent().unwrap().join(".cache").join("c17crate") }
 fn target_dir() -> PathBuf {
@@ -297,14 +383,14 @@ const PRELUDE: &str = "#![allow(unused, dead_code, non_upper_case_globals)]\nuse
 const EPILOGUE: &str = r#"
 fn atoms_text(a: &[Atom]) -> String {
 	if a.is_empty() { return "-".to_string(); }
-	a.iter().map(|x| format!("{:?}", x).replace('(', ":").replace(')', "")).collect::<Vec<_>>().join(",")
+	a.iter().map(atom_text).collect::<Vec<_>>().join(",")
 }
 fn hex(b: &[u8]) -> String { if b.is_empty() { "-".to_string() } else { b.iter().map(|x| format!("{:02x}", x)).collect() } }
 fn show_p(n: usize, a: &[Atom]) { println!("P {} ok:{}", n, atoms_text(a)); }
 fn show_s(n: usize, s: &str) {
 	println!("S {} {}", n, hex(s.as_bytes()));
 	match pelite::pattern::parse(s) {
-		Ok(a) => println!("R {} ok:{}", n, atoms_text(&a)),
+		Ok(a) => { println!("R {} ok:{}", n, atoms_text(&a)); println!("D {} {}", n, hex(format!("{:?}", a).as_bytes())); },
 		Err(e) => {
 			let d = format!("{:?}", e);
 			let kind = d.split("kind: ").nth(1).unwrap().split(',').next().unwrap().to_string();
@@ -314,6 +400,12 @@ fn show_s(n: usize, s: &str) {
 	}
 }
 "#;
+
+/// the generated crate shows an atom by matching on it - not through its Debug impl, which is under test
+fn epilogue() -> String {
+	let arms: String = VARIANTS.iter().map(|&(n, has)| if has { format!("\t\tAtom::{}(x) => format!(\"{}:{{}}\", x),\n", n, n) } else { format!("\t\tAtom::{} => \"{}\".to_string(),\n", n, n) }).collect();
+	format!("{}fn atom_text(a: &Atom) -> String {{\n\tmatch *a {{\n{}\t}}\n}}\n", EPILOGUE, arms)
+}
 
 struct Diag { line: usize, msg: String, help: String }
 
@@ -377,6 +469,7 @@ fn classify_panic(help: &str) -> String {
 /// Is the text one literal token that cannot swallow the lines after it?  (cooked string with optional suffix, or one of
 /// the other literal shapes the generator emits.)  Anything else is compiled in a crate of its own.
 fn line_safe(l: &Lit) -> bool {
+	if l.expr { return !l.src.contains('\n') && !l.src.contains('"'); }
 	let c: Vec<char> = l.src.chars().collect();
 	let ident_tail = |k: usize| c[k..].iter().all(|x| x.is_ascii_alphanumeric() || *x == '_') && (k == c.len() || !c[k].is_ascii_digit());
 	if l.tok_only {
@@ -401,7 +494,7 @@ fn build_set(dir: &Path, name: &str, lits: &[Lit], which: &[usize], res: &mut Ve
 	setup_crate(dir, name);
 	// include[i] = (P included, S included)
 	let mut inc: HashMap<usize, (bool, bool)> = which.iter().map(|&i| (i, (true, !lits[i].tok_only))).collect();
-	for &i in which { res[i] = LitObs { mac: "?".into(), st: if lits[i].tok_only { "-".into() } else { "?".into() }, parse: "-".into(), solo: "-".into() }; }
+	for &i in which { res[i] = LitObs { mac: "?".into(), st: if lits[i].tok_only { "-".into() } else { "?".into() }, parse: "-".into(), dbg: "-".into(), solo: "-".into() }; }
 	for pass in 0..5 {
 		// write main.rs, remembering the line range of every const
 		let mut text = String::from(PRELUDE);
@@ -411,7 +504,7 @@ fn build_set(dir: &Path, name: &str, lits: &[Lit], which: &[usize], res: &mut Ve
 		for &i in which {
 			let (p, s) = inc[&i];
 			if p {
-				let t = format!("const P{}: &[Atom] = pelite::pattern!({});\n", i, lits[i].src);
+				let t = if lits[i].expr { format!("const P{}: &[Atom] = {};\n", i, lits[i].src) } else { format!("const P{}: &[Atom] = pelite::pattern!({});\n", i, lits[i].src) };
 				let n = t.matches('\n').count();
 				ranges.push((line, line + n - 1, i, 'P'));
 				line += n;
@@ -427,7 +520,7 @@ fn build_set(dir: &Path, name: &str, lits: &[Lit], which: &[usize], res: &mut Ve
 				calls.push_str(&format!("\tshow_s({}, S{});\n", i, i));
 			}
 		}
-		text.push_str(EPILOGUE);
+		text.push_str(&epilogue());
 		text.push_str(&format!("fn main() {{\n{}}}\n", calls));
 		if ranges.is_empty() { return; }
 		fs::write(dir.join("src/main.rs"), &text).unwrap();
@@ -441,7 +534,7 @@ fn build_set(dir: &Path, name: &str, lits: &[Lit], which: &[usize], res: &mut Ve
 				let mut it = l.splitn(3, ' ');
 				let (k, n, v) = (it.next().unwrap_or(""), it.next().unwrap_or(""), it.next().unwrap_or(""));
 				let n: usize = match n.parse() { Ok(n) => n, Err(_) => continue };
-				match k { "P" => res[n].mac = v.to_string(), "S" => res[n].st = v.to_string(), "R" => res[n].parse = v.to_string(), _ => {} }
+				match k { "P" => res[n].mac = v.to_string(), "S" => res[n].st = v.to_string(), "R" => res[n].parse = v.to_string(), "D" => res[n].dbg = v.to_string(), _ => {} }
 			}
 			if !out.status.success() {
 				for &i in which { if res[i].mac == "?" { res[i].mac = "!generated-crate-crashed".into(); } }
@@ -499,7 +592,8 @@ fn observe(lits: &[Lit], solo: usize, log: &mut Vec<String>) -> Vec<LitObs> {
 	for &i in &safe {
 		if done >= solo { break; }
 		if !res[i].mac.starts_with("nocompile") { continue; }
-		let one = [Lit { src: lits[i].src.clone(), tok_only: true }];
+		if lits[i].expr { continue; }
+		let one = [Lit { src: lits[i].src.clone(), tok_only: true, ..Default::default() }];
 		let mut r1 = vec![LitObs::default(); 1];
 		build_set(&base.join("one"), "c17one", &one, &[0], &mut r1, log);
 		res[i].solo = if r1[0].mac == res[i].mac { "1".into() } else { format!("0:{}", r1[0].mac) };
@@ -545,10 +639,17 @@ fn fnv(s: &str) -> u64 {
 }
 fn parse_case(case: &str) -> Option<Lit> {
 	let kind = case.split(' ').next().unwrap_or("");
+	if kind == "dbg" {
+		// the real Debug text of the vector, and the text the macro would return for it (the macro's format string)
+		let atoms = std::panic::catch_unwind(|| atoms_of_text(field(case, "atoms"))).ok()?;
+		let dbg = format!("{:?}", atoms);
+		let src = format!("{{ use ::pelite::pattern::Atom::*; &{} }}", dbg);
+		return Some(Lit { src, tok_only: true, expr: true, dbg });
+	}
 	if kind != "lit" && kind != "tok" { return None; }
 	let bytes = unhex(field(case, "src"));
 	let src = String::from_utf8(bytes).ok()?;
-	Some(Lit { src, tok_only: kind == "tok" })
+	Some(Lit { src, tok_only: kind == "tok", ..Default::default() })
 }
 fn solo_budget() -> usize { std::env::var("C17_SOLO").ok().and_then(|s| s.parse().ok()).unwrap_or(5) }
 
@@ -572,7 +673,7 @@ fn observe_cases(cases: &[String], solo: usize) -> Vec<String> {
 		let mut lf = fs::OpenOptions::new().create(true).append(true).open(rd.join("build.log")).unwrap();
 		for l in &log { let _ = writeln!(lf, "{}", l); }
 		for (k, &i) in todo.iter().enumerate() {
-			let t = res[k].text();
+			let t = if lits[k].expr { format!("dbg={} const={}", hex(lits[k].dbg.as_bytes()), res[k].mac) } else { res[k].text() };
 			fs::write(key(&cases[i]), &t).unwrap();
 			out[i] = Some(t);
 		}
